@@ -635,8 +635,25 @@ def can_fuse_primitive_ops(
     primitive_op1: PrimitiveOperation, primitive_op2: PrimitiveOperation
 ) -> bool:
     if is_fuse_candidate(primitive_op1) and is_fuse_candidate(primitive_op2):
-        return primitive_op1.num_tasks == primitive_op2.num_tasks
+        return (
+            primitive_op1.num_tasks == primitive_op2.num_tasks
+            and _reads_single_block(primitive_op2)
+        )
     return False
+
+
+def _reads_single_block(primitive_op: PrimitiveOperation) -> bool:
+    """Return True if each task of the operation reads a single block of a single array.
+
+    ``fuse`` composes the key functions of two operations one-to-one, so the second
+    operation must not take several arguments, or a list or iterator of blocks.
+    """
+    out_coords = next(iter(primitive_op.pipeline.mappable), None)
+    if out_coords is None:
+        return False
+    out_key = ChunkKey("out", tuple(out_coords))
+    args = primitive_op.pipeline.config.back_key_function(out_key).args
+    return len(args) == 1 and isinstance(args[0], ChunkKey)
 
 
 def can_fuse_multiple_primitive_ops(
